@@ -550,6 +550,16 @@ class Item(ItemConfig):
                         scope = self.scope_name
                     is_excluded = self.match_symbol_or_name(symbol, exclude, scope=scope)
 
+                    if not is_excluded and symbol.name not in import_map:
+                        # The symbol may stem from an unqualified import: honour exclusion
+                        # entries that are scoped to one of these modules
+                        is_excluded = any(
+                            SchedulerConfig.match_item_keys(
+                                f'{imprt.module}#{symbol.name}', exclude, use_pattern_matching=True
+                            )
+                            for imprt in getattr(self.scope_ir, 'all_imports', ()) if not imprt.symbols
+                        )
+
                 _add_new_child(symbol.name, is_excluded, child_exclusion_map)
             else:
                 raise ValueError(f'Unexpected dependency type {type(dependency)} for {dependency}')
